@@ -52,6 +52,7 @@ type connRec struct {
 	Bytes      int      `json:"plain_bytes"`  // bytes read on a connection that never became a request (muted hello)
 	Reqs       []reqRec `json:"requests"`
 	Closed     bool     `json:"peer_closed"`  // the peer closed (or reset) the connection
+	Cancelled  []string `json:"cancelled,omitempty"` // h2: requests whose stream the peer reset
 	ClosedAt   time.Time `json:"-"`
 	AcceptedAt time.Time `json:"-"`
 }
@@ -346,6 +347,7 @@ func (b *backend) serveH2(c net.Conn, rec *connRec) {
 		status, hdr, out, mute := b.act(r, rr)
 		if mute {
 			<-r.Context().Done()
+			b.update(func() { rec.Cancelled = append(rec.Cancelled, rr.ID) })
 			return
 		}
 		for k, v := range hdr {
@@ -418,6 +420,7 @@ func (b *backend) window(from, to int, settle time.Duration) []connRec {
 		if r.Seq > from && r.Seq < to && r.Marker == "" {
 			cp := *r
 			cp.Reqs = append([]reqRec(nil), r.Reqs...)
+			cp.Cancelled = append([]string(nil), r.Cancelled...)
 			out = append(out, cp)
 		}
 	}
